@@ -132,6 +132,25 @@ func AccessAtomic(obj interface{}, field string, write bool, site string) {
 	x.accessA(obj, field, write, site, true)
 }
 
+// ByteSlot is the field name under which single elements of byte slices are monitored.
+const ByteSlot = "[]byte element"
+
+// AppendBytes is append for []byte in the code under test: an append that fits into the spare capacity writes
+// into the backing array in place, which is a write to memory shared with every other holder of that array.
+func AppendBytes(s []byte, e ...byte) []byte {
+	if x := X; x != nil && !x.aborting && len(e) > 0 && cap(s)-len(s) >= len(e) {
+		Access(&s[:cap(s)][len(s)], ByteSlot, true, "append in place")
+	}
+	return append(s, e...)
+}
+
+// ReadBytes records that the last element of b is read (the element an append in place would have written).
+func ReadBytes(b []byte, site string) {
+	if x := X; x != nil && !x.aborting && len(b) > 0 {
+		x.access(&b[len(b)-1], ByteSlot, false, site)
+	}
+}
+
 // AccessNoYield is Access without the scheduling point.
 func AccessNoYield(obj interface{}, field string, write bool, site string) {
 	x := X
